@@ -23,6 +23,7 @@ package main
 import (
 	"errors"
 	"fmt"
+	"io"
 	"reflect"
 	"sort"
 	"strings"
@@ -47,12 +48,13 @@ const K = 3
 
 type op struct {
 	kind byte // R W D (deadline, d = seconds, 0 = zero time)  w (Write d bytes)  v (Writev d one-byte buffers)  P (peer drains)  Z (sleep d s)  C (Close)
-	d    int
+	//           O (a Write beyond MaxWriteBufferSize: the connection closes itself with ErrOverflow)  X (the peer resets, then Write(1): EPIPE)
+	d int
 }
 
 func (o op) String() string {
 	switch o.kind {
-	case 'P', 'C':
+	case 'P', 'C', 'O', 'X':
 		return string(o.kind)
 	}
 	return fmt.Sprintf("%c%d", o.kind, o.d)
@@ -69,11 +71,13 @@ func (o op) affects(dir int) bool {
 		return dir == 0
 	case 'W', 'w', 'v':
 		return dir == 1
-	case 'D', 'C':
+	case 'D', 'C', 'O', 'X':
 		return true
 	}
 	return false
 }
+
+func (o op) isErrClose() bool { return o.kind == 'O' || o.kind == 'X' }
 
 var dirName = [2]string{"read", "write"}
 
@@ -82,6 +86,9 @@ type cfg struct {
 	ops  []op
 	p    int
 }
+
+// maxWB is MaxWriteBufferSize in the scenarios that contain an overflowing Write (O).
+const maxWB = 4
 
 func opsString(ops []op) string {
 	var s []string
@@ -186,6 +193,7 @@ type world struct {
 	orphanF  int
 
 	userClose     bool // Close() was called by A (begin)
+	errClose      bool // the scenario contains an operation that makes nbio close the connection with an error
 	closes        int
 	closeErr      error
 	closeAt       time.Time
@@ -299,6 +307,12 @@ func errClass(err error) string {
 		return "rtimeout"
 	case errors.Is(err, nbio.ErrWriteTimeout):
 		return "wtimeout"
+	case errors.Is(err, nbio.ErrOverflow):
+		return "overflow"
+	case errors.Is(err, vsys.EPIPE), errors.Is(err, vsys.ECONNRESET):
+		return "ioerr"
+	case errors.Is(err, io.EOF):
+		return "EOF"
 	}
 	return "other:" + err.Error()
 }
@@ -325,6 +339,11 @@ func (w *world) onClose(c *nbio.Conn, err error) {
 		if !w.userClose {
 			w.failf("unexpected-close|the connection was closed with a nil error at %s although Close was never called", rel(w.closeAt))
 		}
+	case "overflow", "ioerr", "EOF":
+		if !w.errClose {
+			w.failf("unexpected-close|the connection was closed with %v at %s; nothing in this scenario can cause that", err, rel(w.closeAt))
+		}
+		w.counters["error_closes"]++
 	default:
 		w.failf("unexpected-close|the connection was closed with %v at %s; nothing in this scenario can cause that", err, rel(w.closeAt))
 	}
@@ -356,7 +375,7 @@ func (w *world) onClose(c *nbio.Conn, err error) {
 	ts := snapTimers(c)
 	for d := 0; d < 2; d++ {
 		if ts.t[d].armed {
-			w.failf("timer-armed-after-close dir=%s|the close notification (%s) ran at %s while the connection's %s timer was still armed for %s", dirName[d], errClass(err), rel(w.closeAt), dirName[d], rel(ts.t[d].when))
+			w.failf("timer-armed-after-close dir=%s via=%s|the connection was closed (%s, notified at %s) but its %s deadline timer is still armed for %s", dirName[d], closeVia(err), errClass(err), rel(w.closeAt), dirName[d], rel(ts.t[d].when))
 		}
 	}
 	if n := ts.orphans(); n > 0 {
@@ -364,6 +383,18 @@ func (w *world) onClose(c *nbio.Conn, err error) {
 	}
 	for d := 0; d < 2; d++ {
 		w.dl[d] = deadline{state: dlNone, via: "closed with " + errClass(err) + " at " + rel(w.closeAt)}
+	}
+}
+
+// closeVia names the way a connection was closed for signatures.
+func closeVia(err error) string {
+	switch c := errClass(err); c {
+	case "nil":
+		return "Close"
+	case "rtimeout", "wtimeout":
+		return "timeout"
+	default:
+		return "error-" + c
 	}
 }
 
@@ -423,6 +454,11 @@ func (w *world) call(r *opRun) {
 		vtime.Sleep(time.Duration(o.d) * time.Second)
 	case 'C':
 		_ = w.conn.Close()
+	case 'O':
+		_, r.werr = w.conn.Write(ekit.Payload(3, maxWB+1))
+	case 'X':
+		w.peer.Reset()
+		_, r.werr = w.conn.Write(ekit.Payload(4, 1))
 	}
 }
 
@@ -440,10 +476,16 @@ func (w *world) end(r *opRun) {
 			w.counters["set_after_close"]++
 		}
 	case se.Closed && o.kind != 'C':
-		// closed concurrently (by a timeout): whatever the call did, the close cancelled it
-		w.counters["op_raced_with_close"]++
+		// closed concurrently (by a timeout) or by the call itself (O, X): whatever else the call
+		// did, the close cancelled it
+		if !o.isErrClose() {
+			w.counters["op_raced_with_close"]++
+		}
 		for dir := 0; dir < 2; dir++ {
-			w.dl[dir] = deadline{state: dlNone, via: "closed while " + o.String() + " was in flight"}
+			if o.isErrClose() && w.dl[dir].state != dlNone {
+				w.counters["error_close_with_live_deadline"]++
+			}
+			w.dl[dir] = deadline{state: dlNone, via: "closed (" + errClass(se.CloseErr) + ") while " + o.String() + " was in flight"}
 		}
 	default:
 		switch o.kind {
@@ -467,6 +509,8 @@ func (w *world) end(r *opRun) {
 					w.dl[dir] = deadline{state: dlSet, lo: target, hi: target.Add(ve.Sub(vs))}
 				}
 			}
+		case 'O', 'X':
+			w.failf("harness|%s did not close the connection (Write returned %v)", o, r.werr)
 		case 'w', 'v':
 			if r.werr != nil {
 				w.failf("harness|%s returned %v on an open connection", o, r.werr)
@@ -514,10 +558,12 @@ func (w *world) end(r *opRun) {
 		if w.dl[dir].state == dlNone && ts.t[dir].armed {
 			sig := "clear"
 			switch {
-			case sb.Closed:
+			case sb.Closed && o.isNonZero():
 				sig = "set-after-close"
-			case se.Closed || o.kind == 'C':
-				sig = "close"
+			case se.Closed:
+				// same defect as seen from the close notification: same signature
+				w.failf("timer-armed-after-close dir=%s via=%s|%s: the connection is closed (%s) but its %s deadline timer is still armed for %s", dirName[dir], closeVia(se.CloseErr), how, errClass(se.CloseErr), dirName[dir], rel(ts.t[dir].when))
+				continue
 			case o.isWrite():
 				sig = "write-emptied-backlog"
 			}
@@ -558,8 +604,16 @@ func body(c cfg) func() {
 		tr := track.New(track.Exact)
 		conf := nbio.Config{Name: "c16", NPoller: 1, ReadBufferSize: 16, BodyAllocator: tr}
 		c.mode.Apply(&conf)
-		g := nbio.NewEngine(conf)
 		w := &world{counters: map[string]int{}}
+		for _, o := range c.ops {
+			if o.isErrClose() {
+				w.errClose = true
+			}
+			if o.kind == 'O' {
+				conf.MaxWriteBufferSize = maxWB
+			}
+		}
+		g := nbio.NewEngine(conf)
 		lastCounters, lastOutcome = w.counters, "setup-failed"
 		g.OnClose(w.onClose)
 		if err := g.Start(); err != nil {
@@ -814,6 +868,20 @@ func build(tier string) []*vkit.Scenario {
 		}
 		for _, m := range modes {
 			add(cfg{mode: m, ops: l, p: p}, weight)
+		}
+	}
+	// error closes: nbio closes the connection itself (write overflow / EPIPE after a peer reset)
+	// while deadlines are pending
+	for _, l := range [][]op{
+		{{'R', 5}, {'O', 0}}, {{'W', 5}, {'O', 0}}, {{'D', 5}, {'O', 0}}, {{'R', 5}, {'W', 9}, {'O', 0}},
+		{{'R', 5}, {'X', 0}}, {{'W', 5}, {'X', 0}}, {{'D', 9}, {'X', 0}}, {{'R', 5}, {'O', 0}, {'R', 5}},
+	} {
+		modes := []ekit.Mode{ekit.LT}
+		if thorough {
+			modes = ekit.Modes
+		}
+		for _, m := range modes {
+			add(cfg{mode: m, ops: l, p: 2}, 500)
 		}
 	}
 	all = append(all, keepaliveScenarios(tier)...)
